@@ -2,3 +2,4 @@ pub mod exec;
 pub mod reader;
 pub mod out;
 pub mod pairs;
+pub mod fnt;
